@@ -586,6 +586,9 @@ class Polygon(Shape2D):
             self.normal,
         )
         outward_normals /= np.linalg.norm(outward_normals, axis=-1)[:, np.newaxis]
+        if self.signed_area < 0:
+            # Vertices listed clockwise about the normal: the cross products point inward.
+            outward_normals *= -1
 
         # vstack the row corresponding to the constraint equation
         a = np.vstack(
